@@ -144,7 +144,7 @@ theorem accounting_composed (Lp Rp : List Person) (L R : List INode)
     (scoreT scoreF : Nat → Nat → Rat) (prefer minW : Rat)
     (ch : Person → Option Person) (s0 : Sent) (arrival : List Job)
     (hperm : arrival.Perm (jobsFrom ch s0 Lp Rp scoreT scoreF prefer)) (hadm : Admissible Rp ch)
-    (hids : IdsOK Lp Rp) (hp : PtrsOK Lp Rp) (hd : CandidatesDisjoint Lp Rp)
+    (hids : IdsOK Lp Rp) (hp : PtrsOK Lp Rp)
     (st st' : MSt) (out : List (Res × INode))
     (h : mergeIndis L R (winners Lp Rp minW arrival) st = .ok out st') :
     out.map (·.1) = winners Lp Rp minW arrival ∧
@@ -155,7 +155,7 @@ theorem accounting_composed (Lp Rp : List Person) (L R : List INode)
     obtain ⟨h1, h2, h3⟩ := C11.no_empty_result Lp Rp scoreT scoreF prefer minW ch s0 arrival hperm hadm c hc
     exact ⟨h1, fun x hx => hL ▸ h2 x hx, fun y hy => hR ▸ h3 y hy⟩
   have hsrc := mergeIndis_srcs L R _ _ _ _ hgood h
-  obtain ⟨v1, v2⟩ := C11.valid_matching Lp Rp scoreT scoreF prefer minW ch s0 arrival hperm hadm hids hp hd
+  obtain ⟨v1, v2⟩ := C11.valid_matching Lp Rp scoreT scoreF prefer minW ch s0 arrival hperm hadm hids hp
   rw [hsrc]
   exact ⟨rfl, fun x hx => v1 x (hL ▸ hx), fun y hy => v2 y (hR ▸ hy)⟩
 
@@ -313,6 +313,80 @@ theorem output_redecodes_partial (res : List Res) (Ld Rd : List INode) (st st' :
     decode o (encode ⟨bom, eraseList (indis.map (·.2)) ++ eraseList others⟩) =
       .ok ⟨bom, eraseList (indis.map (·.2)) ++ eraseList others⟩ :=
   C01.decode_encode _ ⟨merged_legal res Ld Rd st st' indis others hl hr h, hroles⟩ o
+
+/-! ### the role-order condition, from C09 `roles_below_fam` -/
+
+/-- every HUSB / WIFE / CHIL node of every record lies below a FAM node of that record (decidable
+    guard on an *input* document; the driver evaluates it on every generated input) -/
+def recordsBelowFam (l : List INode) : Bool := l.all fun n => rolesBelowFam false n.erase
+
+/-- **merged_roles.**  If the role nodes of both inputs sit below their FAM records, the records
+    of the merged document satisfy the role-order condition of `C01.Legal`, in the order in which
+    the merge emits them (C09 `roles_below_fam`). -/
+theorem merged_roles (res : List Res) (Ld Rd : List INode) (st st' : MSt)
+    (indis : List (Res × INode)) (others : List INode)
+    (hl : recordsBelowFam Ld = true) (hr : recordsBelowFam Rd = true)
+    (h : mergeDocs res Ld Rd st = .ok indis others st') :
+    rolesOKF false (eraseList (indis.map (·.2)) ++ eraseList others) = true := by
+  obtain ⟨rb1, rb2, rb3⟩ := C09.roles_below_fam codeFlags
+  simp only [recordsBelowFam, List.all_eq_true] at hl hr
+  apply rb3
+  unfold mergeDocs at h
+  split at h
+  · cases h
+  · cases h
+  · cases h
+  · rename_i out s1 hind
+    simp only at h
+    split at h
+    · cases h
+    · cases h
+    · rename_i es s2 hsl
+      simp only [DocOutcome.ok.injEq] at h
+      obtain ⟨rfl, rfl, rfl⟩ := h
+      intro k hk
+      rcases List.mem_append.mp hk with hk | hk
+      · rw [eraseList_eq_map] at hk
+        obtain ⟨n, hn, rfl⟩ := List.mem_map.mp hk
+        obtain ⟨⟨c, m⟩, hcm, rfl⟩ := List.mem_map.mp hn
+        rcases output_of_comparison _ _ res st out s1 hind c m hcm with
+          ⟨a, _, ha⟩ | ⟨b, _, hb⟩ | ⟨a, b, l, r, s0, s1', _, hla, hrb, hmn⟩
+        · exact hl m (List.mem_filter.mp (byId_some ha).1).1
+        · exact hr m (List.mem_filter.mp (byId_some hb).1).1
+        · exact rb1 l r m s0 s1' hmn (hl l (List.mem_filter.mp (byId_some hla).1).1)
+            (hr r (List.mem_filter.mp (byId_some hrb).1).1)
+      · rw [eraseList_eq_map] at hk
+        obtain ⟨n, hn, rfl⟩ := List.mem_map.mp hk
+        obtain ⟨e, he, rfl⟩ := List.mem_map.mp hn
+        have hes : es = (mergeNodeSlicesP codeFlags
+            (eqMergeF codeFlags (mergeFuel (othersOf Ld) (othersOf Rd))) (othersOf Ld) (othersOf Rd) s1).1 := by
+          unfold mergeNodeSlicesO at hsl
+          simp only at hsl
+          split at hsl
+          · cases hsl
+          · split at hsl
+            · cases hsl
+            · simp only [SliceOutcome.ok.injEq] at hsl; exact hsl.1.symm
+        rw [hes] at he
+        refine rb2 _ (othersOf Ld) (othersOf Rd) s1 ?_ e he
+        intro x hx
+        rcases List.mem_append.mp hx with hx | hx
+        · exact hl x (List.mem_filter.mp hx).1
+        · exact hr x (List.mem_filter.mp hx).1
+
+/-- **output_redecodes.**  No run-time guard on the output any more: if both inputs consist of
+    legal parts (C02 `decode_legal` for decoded inputs) and their role lines sit below their FAM
+    records (`recordsBelowFam`, decidable, on the inputs), the merged document serialises to text
+    that decodes to the same document again, with any decoder options. -/
+theorem output_redecodes (res : List Res) (Ld Rd : List INode) (st st' : MSt)
+    (indis : List (Res × INode)) (others : List INode) (bom : Bool) (o : Opts)
+    (hl : LegalF (eraseList Ld)) (hr : LegalF (eraseList Rd))
+    (hbl : recordsBelowFam Ld = true) (hbr : recordsBelowFam Rd = true)
+    (h : mergeDocs res Ld Rd st = .ok indis others st') :
+    decode o (encode ⟨bom, eraseList (indis.map (·.2)) ++ eraseList others⟩) =
+      .ok ⟨bom, eraseList (indis.map (·.2)) ++ eraseList others⟩ :=
+  output_redecodes_partial res Ld Rd st st' indis others bom o hl hr h
+    (merged_roles res Ld Rd st st' indis others hbl hbr h)
 
 /-- inputs that come out of the decoder (without multi-line continuation) are legal -/
 theorem decoded_input_legal (o : Opts) (hm : o.allowMultiLine = false) (s : Str) (d : Dec.Doc)
